@@ -40,6 +40,7 @@ type Run struct {
 	Rule        string
 	Assumptions []string
 	Extra       map[string]any
+	Counters    map[string]int
 	Evals       int // for exploration-style evidence
 	Distinct    map[string]bool
 	HarnessErr  error
@@ -107,6 +108,49 @@ func (r *Run) ExploreSpecs(specs []Spec) {
 		fmt.Printf("  %d spaces %s … %s: states=%d transitions=%d ops=%d exhaustive=%v %s\n", len(specs), specs[0].Name, specs[len(specs)-1].Name,
 			group.States, group.Transitions, group.OpsRun, group.Exhaustive, group.CapHit)
 	}
+}
+
+// RunTaskGroup runs tasks and merges their results into the run (exploration-style counters).
+func (r *Run) RunTaskGroup(label, name string, args []any) {
+	if r.HarnessErr != nil {
+		return
+	}
+	t0 := time.Now()
+	res, err := r.Pool.RunTasks(name, args)
+	if err != nil {
+		r.HarnessErr = err
+		return
+	}
+	evals, viols := 0, 0
+	for _, x := range res {
+		if x.Herr != "" && r.HarnessErr == nil {
+			r.HarnessErr = fmt.Errorf("%s: %s", label, x.Herr)
+		}
+		evals += x.Evals
+		r.Evals += x.Evals
+		for _, d := range x.Distinct {
+			r.Distinct[d] = true
+		}
+		for _, s := range x.Samples {
+			if len(r.Stats.Samples) < 12 {
+				r.Stats.Samples = append(r.Stats.Samples, label+": "+s)
+			}
+		}
+		for _, v := range x.Viols {
+			viols++
+			if len(r.Found) < 6 {
+				r.Found = append(r.Found, Found{Spec: Spec{Name: label, Kind: "task"}, Msg: v})
+			}
+		}
+		for k, v := range x.Counters {
+			if r.Counters == nil {
+				r.Counters = map[string]int{}
+			}
+			r.Counters[k] += v
+		}
+	}
+	r.Stats.Transitions += evals
+	fmt.Printf("  %-40s evaluations=%d violations=%d %.1fs\n", label, evals, viols, time.Since(t0).Seconds())
 }
 
 type CheckDef struct {
@@ -205,7 +249,7 @@ func ReplayPath(spec Spec, path []Op) (string, error) {
 	}
 	parentTxt := ""
 	if spec.Has("notrace") {
-		parentTxt, _ = w.StateText()
+		parentTxt = w.TraceText()
 	}
 	_, err = stepAndCheck(sp, w, path[len(path)-1], spec.Has("notrace"), parentTxt)
 	if err != nil {
@@ -223,6 +267,9 @@ func (r *Run) writeEvidence(violations int) {
 	cov := map[string]any{}
 	switch r.Level {
 	case "model_checking":
+		if r.Stats.States == 0 {
+			r.Stats.States = len(r.Distinct)
+		}
 		cov["states"] = r.Stats.States
 		cov["transitions"] = r.Stats.Transitions
 		cov["traces_validated_against_impl"] = r.Stats.Transitions
@@ -246,6 +293,9 @@ func (r *Run) writeEvidence(violations int) {
 	}
 	for k, v := range r.Extra {
 		cov[k] = v
+	}
+	if len(r.Counters) > 0 {
+		cov["counters"] = r.Counters
 	}
 	ev := map[string]any{
 		"property_id": r.ID,
